@@ -1,14 +1,89 @@
-// Package c02 is the correspondence area of property C02 (stub: the slice is not built yet).
+// Package c02 is the correspondence area of property C02: the same simulator and end-to-end layer as
+// C01 (harness/c01), driven by a fault-injecting generator: every single-fault position of small
+// scenarios (error / EOF / block on every role), cancellation and deadline at every scheduler instant,
+// ctx-ignoring fakes (the model predicts the hang), and the termination scenarios end to end.
 package c02
 
 import (
+	"fmt"
 	"math/rand"
+
+	"verif/harness/c01"
 )
 
 type Area struct{}
 
 func (Area) Name() string { return "c02" }
 
-func (Area) Exec(input string) string { return "UNIMPLEMENTED" }
+func (Area) Exec(input string) string { return c01.Exec(input) }
 
-func (Area) Gen(r *rand.Rand, tier string, emit func(string)) {}
+func clone(x []string) []string { return append([]string{}, x...) }
+
+func (Area) Gen(r *rand.Rand, tier string, emit func(string)) {
+	maxMsgs, nrand, nun, ne := 2, 250, 14, 40
+	if tier == "thorough" {
+		maxMsgs, nrand, nun, ne = 3, 8000, 150, 900
+	}
+	for _, cs := range []bool{false, true} {
+		for _, ss := range []bool{false, true} {
+			nq, np := 1, 1
+			if cs {
+				nq = maxMsgs
+			}
+			if ss {
+				np = maxMsgs
+			}
+			var ir, is, ow, or []string
+			for i := 0; i < nq; i++ {
+				ir = append(ir, fmt.Sprintf("m:x%02x", 0x10+i))
+				ow = append(ow, "k")
+			}
+			ir = append(ir, "E")
+			for i := 0; i < np; i++ {
+				or = append(or, fmt.Sprintf("m:x%02x", 0xa0+i))
+				is = append(is, "k")
+			}
+			or = append(or, "e5")
+			st := []string{"k"}
+			scripts := map[string][]string{"ir": ir, "is": is, "st": st, "ow": ow, "or": or}
+			faults := map[string][]string{"ir": {"e61", "B", "E"}, "is": {"e62", "B"}, "st": {"e63", "B"}, "ow": {"e64", "B", "E"}, "or": {"e65", "B", "E"}}
+			// every single-fault position
+			for _, role := range []string{"ir", "is", "st", "ow", "or"} {
+				for pos := 0; pos < len(scripts[role]); pos++ {
+					for _, f := range faults[role] {
+						m := map[string][]string{}
+						for k, v := range scripts {
+							m[k] = clone(v)
+						}
+						m[role][pos] = f
+						for k := 0; k < 2; k++ {
+							emit(c01.Line(cs, ss, true, true, k == 1, "b", m["ir"], m["is"], m["st"], m["ow"], m["or"], "-", r.Int63n(1<<31)))
+						}
+					}
+				}
+			}
+			// cancellation / deadline at every scheduler instant
+			for at := 0; at < 14+10*maxMsgs; at++ {
+				for _, kind := range []string{"c", "d"} {
+					emit(c01.Line(cs, ss, true, true, at%2 == 1, "b", ir, is, st, ow, or, fmt.Sprintf("%s@%d", kind, at), r.Int63n(1<<31)))
+				}
+			}
+			// the idle-client scenario: the target ends the call, the client neither sends nor closes
+			for _, fin := range []string{"E", "e9"} {
+				for k := 0; k < 3; k++ {
+					emit(c01.Line(cs, ss, true, true, k == 1, "b", append(clone(ir[:len(ir)-1]), "B"), is, st, ow, append(clone(or[:len(or)-1]), fin), "-", r.Int63n(1<<31)))
+				}
+			}
+		}
+	}
+	for i := 0; i < nrand; i++ {
+		emit(c01.RandomScenario(r, c01.GenOpts{Faults: true}))
+	}
+	// ctx-ignoring adapters: the model predicts where the real Forward hangs (kept few: each hang costs a timeout)
+	emit(c01.Line(true, true, false, true, false, "b", []string{"B"}, nil, []string{"k"}, nil, []string{"E"}, "-", 1))
+	emit(c01.Line(true, true, false, true, false, "b", []string{"m:x01", "B"}, []string{"k"}, []string{"k"}, []string{"k"}, []string{"m:x02", "e9"}, "-", 2))
+	for i := 0; i < nun; i++ {
+		emit(c01.RandomScenario(r, c01.GenOpts{Faults: i%2 == 0, Unaware: true}))
+	}
+	c01.GenE2E(r, ne, true, emit)
+}
